@@ -8,6 +8,7 @@ RULE = ("seeded random programs whose frames carry `let` guards on shares that a
         "outlines, plain auxiliaries with guarded first frames (shared originals in ancestor/descendant/sibling frames), guarded "
         "first frames of active, slave (fiat-started) and auxiliary framers; a benter recorder first in every frame logs each "
         "attempt with the store snapshot; the same programs with auxiliaries turned into clones (gen.cloneify) and a feature set with guarded, half negated, frames inside such clones; conditional auxiliaries guarded by update / change conditions with an entry guard that opens later, or completing at once; distinct = distinct program text; non-trivial = at least 2 refused and 2 admitted attempts")
+RULE = __import__("vf.core", fromlist=["rule_add"]).rule_add(RULE, 'also `ready` then a write to the condition share then `start` (by fiat on a slave, by bid on an inactive framer): the entry guards are judged with the shares as they are at the start')
 META = {"engine": "A floscript", "technique": "trace monitor: guard evaluated on the attempt snapshot; no-effect window after refusal; "
                                                "differential check against the reference interpreter",
         "level_text": "Each enter event of a guarded frame (or of a frame whose aux has a guarded first frame) is matched with the latest "
